@@ -12,7 +12,9 @@ CLAIMS = {
  "C03": ("theorems: frame and raise-frame of the workspace model for all 32 operations and all histories (specification the code is compared to); tie: whole-store deep snapshots before/after every real call, shared-state identity checks", "5 C03"),
  "C04": ("theorems: binop_spec (element-wise by NAME for every pair of dim lists, broadcasting), succeeds iff shared coords agree, permutation invariance, scalar/array variants; tie: enumerated dim-list pairs through real code and model + order-free oracle", "5 C04"),
  "C05": ("theorems: int/float/range selector logic (argmin is first minimiser; range = non-empty contiguous run between nearest positions), read=write by shared conversion, pinned defect refuted on a witness; tie: enumerated selectors x axis kinds + specification oracle", "5 C05"),
+ "C08": ("theorems: the bracket theorem (unfold -> per-column function -> fold acts on each by-name trace, any rank / position), the same for the axis-index mechanism and named reductions, equality of the two mechanisms, permutation equivariance as a corollary, pinned interp refuted on a witness; tie: every registry function x dim position through real code and model + f(permute x)=permute(f x) and single-trace oracles", "5 C08"),
  "C10": ("theorems: ufunc on own operand values with labels kept, reduction by name/position removes exactly that dim and is f of each trace, full reduction returns the scalar; tie: registry x arrangements x axes through real NumPy dispatch and model", "5 C10"),
+ "C12": ("theorems (any field): trapezoid rule linear in the data, last cumulative point = definite integral, integrate = per-trace trapezoid with the dimension removed, enhancement reference = 1 and gain invariance; tie: exact Q / Q[i] comparison incl. region lists + hand-written trapezoid, linearity, gain oracles", "5 C12"),
  "C11": ("theorems: every stamping step appends, pipeline_prefix by induction over any pipeline, input untouched (frame); tie: pipelines on objects with 0-12 pre-existing entries + history oracle", "5 C11"),
 }
 NOT_YET = {}
